@@ -265,7 +265,7 @@ def classify(bounds, o):
 # ------------------------------------------------------------------ L1
 def correspondence(ctx):
     rng = ctx.rng
-    n = ctx.n(320, 6000)
+    n = ctx.n(240, 6000)
     cases, meta, cov_cases = [], [], []
     for i in range(n):
         acc, bounds, ops, tiled = gen_case(rng, edge=(i % 25 == 24))
